@@ -57,10 +57,10 @@ impl Suite for Parse {
     fn generate(&self, seed: u64, tier: &str) -> Vec<Case> {
         let mut r = Rng::new(seed ^ 0xC12_0001);
         let n = if tier == "thorough" { 120_000 } else { 6_000 };
-        let mut cases: Vec<Case> = PINNED.iter().map(|(c, t)| case_of(c, t)).collect();
+        let mut cases: Vec<Case> = PINNED.iter().map(|(c, t)| case_of(&crate::features::class_of(c, t), t)).collect();
         for _ in 0..n {
             let (class, text) = gen::any(&mut r);
-            cases.push(case_of(class, &text));
+            cases.push(case_of(&crate::features::class_of(class, &text), &text));
         }
         cases
     }
